@@ -181,6 +181,25 @@ PROPS = {
             "dropping a request closes its channel, which wakes the awaiting task: futures-mpsc behaviour (assumed)",
         ],
     },
+    "C18": {
+        "kani": [],
+        "verus": ["P", "W"],
+        "trusted_base": ["Verus 0.2026.09.13 + Z3 (unit P: lifted task bodies of Time::notify_after / notify_at, the two constructors, TimerHandle::clear, get_timer_id; unit W: the legacy TimerFuture::poll)"],
+        "assumptions": [
+            "rule X20 (select projection): `select_biased! { response = REQ.fuse() => A, cleared = receiver => B }` is read as `match select2(REQ, receiver) { Shell(response) => A, Cleared(cleared) => B }`; select2 is an ASSUMED call: polling the select sends REQ to the shell (its future is polled first) and awaits one arm; which arm completes is a prophecy of the environment (answer_waiting, cleared_pending) constrained only by the bias (an answer already waiting wins) and by futures' fused oneshot receiver (the clear arm completes only with the id the handle sent; a dropped handle is never selected)",
+            "rule X17: .await erased; `ctx.request_from_shell(op).await` hands exactly op to the shell once and yields its answer; the shell answers in kind and for the same timer id (otherwise the real code panics explicitly)",
+            "oneshot try_recv yields the handle's id iff the handle was cleared before; oneshot send delivers its value",
+            "the process-wide COUNTER (AtomicUsize::fetch_add) is read sequentially (C08 not claimed) and has not wrapped (fewer than 2^64 - 1 timers): stated as a precondition",
+            "std Duration / SystemTime -> wire conversions are opaque here (proved in unit T under C19)",
+        ],
+        "not_decided": [
+            "interleavings over several polls (the select is read as awaited to its end; that a clear arriving between two polls is seen by a later poll is futures' oneshot + select semantics)",
+            "'dropping the handle never cancels the timer': follows from the fused receiver never completing on Canceled - assumed in select2, not proved",
+            "'clears or answers arriving after the outcome are ignored': the task has returned; what a late resolve does is C02/C06's subject",
+            "the legacy API (crux_time/src/lib.rs notify_at/notify_after/clear: async blocks over a global cleared set): only TimerFuture::poll is proved (unit W)",
+            "uniqueness across threads (fetch_add is atomic: std) and after counter wrap-around",
+        ],
+    },
     "C14": {
         "kani": [],
         "verus": ["H"],
